@@ -260,6 +260,10 @@ func (e *Exec) step(fr *frame, st *State, instr ssa.Instruction) {
 		r := e.alloc(st)
 		// whoever makes a channel holds the unique permission to close it
 		e.setHeap(st, "G$mayclose", sto(e.tlHeap(st, "G$mayclose"), r, "1"))
+		// ... and all of its buffer slots
+		size := e.tval(fr, st, in.Size)
+		e.oblige(fr, st, "makechan", "channel size is not negative", pos, le("0", size.T))
+		e.setHeap(st, "G$chcredit", sto(e.tlHeap(st, "G$chcredit"), r, size.T))
 		e.set(fr, in, Val{T: r, S: sInt})
 	case *ssa.MakeClosure:
 		cl := &Closure{Fn: in.Fn.(*ssa.Function)}
@@ -410,6 +414,7 @@ func (e *Exec) stepUnOp(fr *frame, st *State, in *ssa.UnOp) {
 		}
 	case token.ARROW:
 		e.note("%s: channel receive: value havoced", e.w.pos(pos))
+		e.recvCredit(fr, st, e.tval(fr, st, in.X).T)
 		e.set(fr, in, e.havocVal(st, in.Type(), "recv"))
 	default:
 		e.set(fr, in, e.havocVal(st, in.Type(), "unop"))
@@ -846,6 +851,9 @@ func (e *Exec) stepGo(fr *frame, st *State, in *ssa.Go) {
 				case "wgtok":
 					e.oblige(fr, st, "perm:go:"+callee.Name(), "spawner owns the WaitGroup tokens handed to "+callee.Name()+": "+h.Src, in.Pos(), le(k, mine))
 					e.setHeap(st, hn, sto(e.tlHeap(st, hn), x.T, sub(mine, k)))
+				case "chcredit":
+					e.oblige(fr, st, "perm:go:"+callee.Name(), "spawner owns the free buffer slots handed to "+callee.Name()+": "+h.Src, in.Pos(), le(k, mine))
+					e.setHeap(st, hn, sto(e.tlHeap(st, hn), x.T, sub(mine, k)))
 				case "wgst":
 					// handing out the right to Wait: the spawner created the
 					// WaitGroup (or may itself Wait) and can no longer Add
@@ -1099,6 +1107,82 @@ func (e *Exec) closePerm(fr *frame, st *State, ch string, pos token.Pos) {
 	e.setHeap(st, "G$mayclose", sto(mc, ch, "0"))
 }
 
+// nonBlockingChans: the channels declared `nonblocking` in the function family,
+// resolved in the top frame.
+func (e *Exec) nonBlockingChans(st *State) []string {
+	fr := e.topFrame
+	if fr == nil {
+		return nil
+	}
+	var out []string
+	for fn := fr.fn; fn != nil; fn = fn.Parent() {
+		spec := e.specOf(fn)
+		if spec == nil {
+			continue
+		}
+		for _, n := range spec.NonBlocking {
+			inScope := false
+			if p, ok := fr.captured[n]; ok && p.T != "" {
+				inScope = true
+			}
+			for _, a := range fr.locals[n] {
+				if pv, ok := fr.vals[a]; ok && pv.T != "" {
+					inScope = true
+				}
+			}
+			if !inScope {
+				continue
+			}
+			out = append(out, e.specEnv(fr, st, nil).eval(EIdent{Name: n}).T)
+		}
+	}
+	return out
+}
+
+// sendCredit: a send on a channel declared `nonblocking` must use a free buffer
+// slot reserved for this goroutine (created by make, handed over by `holds
+// chcredit`, regained by receiving from the open channel); the sum of all
+// credits never exceeds the free slots, so the send cannot block.
+func (e *Exec) sendCredit(fr *frame, st *State, ch string, pos token.Pos) {
+	nb := e.nonBlockingChans(st)
+	if len(nb) == 0 {
+		return
+	}
+	var is []string
+	for _, c := range nb {
+		is = append(is, eq(ch, c))
+	}
+	cr := e.tlHeap(st, "G$chcredit")
+	mine := sel(cr, ch)
+	e.oblige(fr, st, "chan:send-credit", "send on a `nonblocking` channel uses a free buffer slot reserved for this goroutine (it cannot block)", pos, imp(or(is...), le("1", mine)))
+	e.setHeap(st, "G$chcredit", sto(cr, ch, ite(or(is...), sub(mine, "1"), mine)))
+	e.trust("`nonblocking ch`: free buffer slots are thread-local ghost credits (make gives cap(ch) to the maker, a receive from the still open channel gives one to the receiver, `holds chcredit` moves them at go statements); a send that consumes one finds a free slot")
+}
+
+// recvCredit: receiving from a `nonblocking` channel that is known to be open
+// (so the value really came out of the buffer) frees one slot for the receiver.
+func (e *Exec) recvCredit(fr *frame, st *State, ch string) {
+	nb := e.nonBlockingChans(st)
+	if len(nb) == 0 {
+		return
+	}
+	var is []string
+	for _, c := range nb {
+		is = append(is, eq(ch, c))
+	}
+	open := eq(sel(e.tlHeap(st, "G$mayclose"), ch), "1")
+	for _, d := range e.chanDecls(st) {
+		if d.never {
+			open = or(open, eq(ch, d.ch))
+		} else if d.wg != "" {
+			open = or(open, and(eq(ch, d.ch), or(le("1", sel(e.tlHeap(st, "G$wgtok"), d.wg)), eq(sel(e.tlHeap(st, "G$wgst"), d.wg), "1"))))
+		}
+	}
+	cr := e.tlHeap(st, "G$chcredit")
+	mine := sel(cr, ch)
+	e.setHeap(st, "G$chcredit", sto(cr, ch, ite(and(or(is...), open), add(mine, "1"), mine)))
+}
+
 func (e *Exec) stepSend(fr *frame, st *State, in *ssa.Send) {
 	// A channel is not modelled as a data structure. What a function sends is
 	// constrained by the `onsend requires` clauses of its contract and recorded
@@ -1106,6 +1190,7 @@ func (e *Exec) stepSend(fr *frame, st *State, in *ssa.Send) {
 	x := e.tval(fr, st, in.X)
 	x.GoT = in.X.Type()
 	e.sendOpen(fr, st, e.tval(fr, st, in.Chan).T, in.Pos())
+	e.sendCredit(fr, st, e.tval(fr, st, in.Chan).T, in.Pos())
 	if fr != e.topFrame || fr.spec == nil {
 		e.note("%s: channel send in an inlined function: not checked", e.w.pos(in.Pos()))
 		return
